@@ -10,6 +10,8 @@ import Ajson.Proofs.HeapBasics
 import Ajson.Proofs.WFInv
 import Ajson.Proofs.DecodeStruct
 import Ajson.Proofs.Acyclic
+import Ajson.Proofs.Views
+import Ajson.Proofs.CloneSound
 
 namespace Ajson.Props.C06
 open Ajson Ajson.Heap
@@ -177,5 +179,39 @@ example :
     let (h5, _) := h4.appendArray a [y, x]
     let (h6, _) := h5.popIndex (some a) 0
     h6.wfB = true := by decide +kernel
+
+/-! ### all read views describe the same children -/
+
+/-- **the views of an array agree**: on a sound heap `Inheritors()` — which places the children by their `index` FIELD — returns,
+position by position, exactly the nodes `GetIndex(i)` finds under the decimal KEY `i`; there are `Size()` of them; and `GetArray()`
+(and so `Value()`) fills an empty cell with that same list. The two bookkeepings of an array (index fields, keys of the children map)
+never disagree. -/
+theorem C06_array_views_agree {h : Heap} (hs : Proofs.Struct h) (n : Nat) (hn : n < h.size) (harr : (h.get n).type = .array) :
+    h.inheritors n = .ok (Proofs.arrayIds (h.childMap n)) ∧ (Proofs.arrayIds (h.childMap n)).length = h.nchildren n ∧
+    (∀ i, i < h.nchildren n → ∃ c, (Proofs.arrayIds (h.childMap n))[i]? = some c ∧ h.getIndex (some n) (i : Int) = .ok c) ∧
+    ((h.get n).cache = none → (h.getArray (some n)).2 = .ok (Proofs.arrayIds (h.childMap n))) :=
+  let r := Proofs.inheritors_array hs n hn harr
+  ⟨r.1, r.2.1, r.2.2, Proofs.getArray_fresh hs n hn harr⟩
+
+/-- … after ANY history of edit requests, clones and SetArray / SetObject assignments (every array of the resulting heap) -/
+theorem C06_array_views_agree_after_any_history (ss : List Proofs.Step) (h : Heap) (hs : Proofs.Struct h) (ha : Proofs.Acyc h)
+    (hv : Proofs.ValidSteps h ss) (n : Nat) (hn : n < (ss.foldl Proofs.Step.run h).size)
+    (harr : ((ss.foldl Proofs.Step.run h).get n).type = .array) :
+    (ss.foldl Proofs.Step.run h).inheritors n = .ok (Proofs.arrayIds ((ss.foldl Proofs.Step.run h).childMap n)) ∧
+    (∀ i, i < (ss.foldl Proofs.Step.run h).nchildren n →
+      ∃ c, (Proofs.arrayIds ((ss.foldl Proofs.Step.run h).childMap n))[i]? = some c ∧ (ss.foldl Proofs.Step.run h).getIndex (some n) (i : Int) = .ok c) :=
+  let s := (Proofs.steps_sound ss h hs ha hv).1
+  let r := Proofs.inheritors_array s n hn harr
+  ⟨r.1, r.2.2⟩
+
+/-- the views of an object agree: `Inheritors()` lists the values of the children map (sorted by key), `Keys()` its keys, and
+`GetKey(k)` finds exactly the entries of that map -/
+theorem C06_object_views_agree {h : Heap} (hs : Proofs.Struct h) (n : Nat) (hn : n < h.size) (hobj : (h.get n).type = .object) :
+    h.inheritors n = .ok ((sortByKey (h.childMap n)).map (·.2)) ∧
+    (∀ k c, (k, c) ∈ h.childMap n ↔ h.getKey (some n) k = .ok c) := by
+  refine ⟨?_, fun k c => Proofs.members_is_getKey hs n hn hobj k c⟩
+  unfold Heap.inheritors
+  have h1 : h.isObject n = true := by simp [isObject, typeOf, hobj]
+  simp only [h1, if_true]
 
 end Ajson.Props.C06
